@@ -230,6 +230,12 @@ class CLEngine(Engine):
                 return [["loadmd", []], ["run", 12], mk(pairs[:1]), ["run", 10], [draw(st.sampled_from(["refuse", "refusesync"])), node], ["drop", 0, 0], ["drop", 0, 0], ["drop", 0, 0], ["run", 6], mk(pairs[:1]),
                         ["run", draw(st.integers(0, 4))], ["wait", draw(st.integers(0, 2))]] + tail
             return [["loadmd", []], ["run", 12], mk(pairs), ["ev", "srv", 0], ["run", draw(st.integers(0, 2))]] + tail
+        if kind == "timeout2":
+            # two timeouts in a row on the same broker: after the first one the connection is replaced; the second silent connection
+            # must be dropped just the same, and a younger unanswered request re-sent on yet another one
+            api = {"produce": "produce", "fetch": "fetch", "offsets": "list_offsets"}[call]
+            return [["loadmd", []], ["run", 12], mk([(ti, pi)]), ["run", 10], ["hold", b, api], mk([(ti, pi)]), ["run", 4], ["wait", 6], ["run", 14], ["hold", b, api], ["hold", b, api], ["hold", b, api],
+                    mk([(ti, pi)]), ["run", 4], ["wait", draw(st.integers(0, 2))], mk([(ti, pi)]), ["run", 4], ["wait", 6], ["run", 14], ["timer"], ["run", 8], ["wait", 6], ["run", 12]]
         if kind == "silentboot":
             # bootstrap hosts that accept the connection but never answer: each must be given up after the timeout and the next one tried
             return [["hold", b, "metadata"], ["hold", b, "metadata"], ["loadmd", draw(st.sampled_from([[], [ti]]))], ["run", 8], ["wait", 6], ["run", 12], ["wait", 6], ["run", 12], ["wait", 6], ["run", 12]]
@@ -917,6 +923,14 @@ class CLEngine(Engine):
         if c.kind == "produce" and c.acks == 0:
             if value:
                 self.note("C07.payload-order", "C07.acks0-result", "produce with acks=0 returned %r" % (value,))
+            # success of a send that expects no reply means every payload was handed to a connection; a payload that never reached the
+            # wire is a FAILED send - it must be reported, and it invalidates the cached routing (C08) so that the next one re-resolves
+            mine = [x for x in self.writes if x.get("call") == c.no and x["api"] == "produce"]
+            written = set(k for x in mine for k in x.get("keys", []))
+            lost = [k for k in c.keys if k not in written]
+            if lost and not self.closed:
+                self.note("C08.reresolve-after-stale", "C08.failed-noreply-send-reported-as-success", "produce call #%d (acks=0) succeeded although payloads %r were never written to any connection (their broker could not be reached): the failure is hidden and the routing that led there is kept" % (c.no, lost))
+                self.note("C07.accounting", "C07.accounting/acks0-unwritten-success", "produce call #%d (acks=0) succeeded although payloads %r were never written" % (c.no, lost))
             return
         try:
             got = [(r.topic, r.partition) for r in value]
@@ -983,10 +997,23 @@ class CLEngine(Engine):
                 self.nt.add("partial-failure")
             else:
                 self.labels.add("total-failure")
-            for _, f in failed:
+            for pl, f in failed:
                 if hasattr(f, "check") and f.check(C.RequestTimedOutError):
                     self.labels.add("timed-out")
                     self.nt.add("timed-out-request")
+                    # C11 (last sentence): with disconnect-on-timeout the silent connection is dropped - every time, not only the first
+                    if self.config["dot"] and not self.closed and c.warm:
+                        k = (pl.topic, pl.partition)
+                        for x in self.writes:
+                            if x.get("call") == c.no and k in x.get("keys", []) and not x.get("bootstrap"):
+                                conn = x["conn"]
+                                answered = any(r["req"]["correlation_id"] == x["req"]["correlation_id"] and r["conn"] is conn and self.cluster.delivered(r["reply"]) for r in reqs)
+                                if not answered and not conn.client_closed and not conn.dropped and not conn.lost_delivered:
+                                    self.nt.add("silent-connection-at-timeout")
+                                    self.note("C11.disconnect-on-timeout", "C11.silent-connection-not-dropped", "call #%d timed out waiting on %r (disconnect_on_timeout=True) but the client did not drop that connection (it was the %s timeout on it or its predecessors for node %r)" % (
+                                        c.no, conn, "first" if not any(getattr(y, "_timed_out_before", False) for y in [conn]) else "repeated", x["node"]))
+                                elif not answered:
+                                    self.nt.add("silent-connection-dropped-at-timeout")
         elif fail.check(C.BrokerResponseError) and not c.foe:
             from afkak.common import CoordinatorNotAvailable
 
@@ -1312,6 +1339,8 @@ class CLEngine(Engine):
                 newer = [(h, p) for h, p, s in said if s >= getattr(self, "witnessed_deliv", 0)]
                 if wit and (a.host, a.port) not in set(wit + newer):
                     self.nt.add("broker-readdressed")
+                    # C07 too: payloads are to be sent to the broker the CURRENT metadata names - at the address it names
+                    self.note("C07.routed-to-leader", "C07.routed-to-leader/stale-address", "broker client for node %r dials %s:%s; the metadata the client last consumed puts that broker at %r" % (node, a.host, a.port, wit))
                     self.note("C08.addresses", "C08.connect-to-stale-address", "broker client for node %r dialled %s:%s although the last metadata reply the client consumed says %r" % (node, a.host, a.port, wit))
 
     def check(self, step):
